@@ -3,7 +3,13 @@ PROP = dict(
     engines=["c04"],
     go_tags=["c04"],
     gen_files={"MM/Gen/C04.lean": "c04"},
-    lean_modules=["MM.Props.C04"],
+    extract_files={
+        "MM/Gen/LockC04u.lean": {"cmd": ["go", "run", "{VERIF}/tools/lockshape.go", "LockC04u", "{REPO}/internal/udp/association.go",
+            "Association.SetSessionKey,Association.GetSessionKey,Association.Encrypt,Association.Decrypt,Association.Close", "mu", "SessionKey"]},
+        "MM/Gen/LockC04i.lean": {"cmd": ["go", "run", "{VERIF}/tools/lockshape.go", "LockC04i", "{REPO}/internal/icmp/session.go",
+            "Session.SetSessionKey,Session.GetSessionKey,Session.Encrypt,Session.Decrypt,Session.Close", "mu", "SessionKey"]},
+    },
+    lean_modules=["MM.Props.C04", "MM.Props.C04Lock"],
     theorems=[
         "MM.C04.C04_same_key",
         "MM.C04.C04_payload_sealed",
@@ -14,6 +20,8 @@ PROP = dict(
         "MM.C04.C04_ingress_fixed_zero_key",
         "MM.C04.C04_active_partial",
         "MM.C04.C04_pinned_fallback_kinds",
+        "MM.C04.C04_tie_udp_key_guarded",
+        "MM.C04.C04_tie_icmp_key_guarded",
     ],
     spec=True,
     chunk=200,
@@ -22,7 +30,10 @@ PROP = dict(
          "(0..40000 bytes), agent.deriveICMPSessionKey / deriveResponderSessionKey with an all-zero and an honest remote key; mesh ops: three real agents "
          "in-process (SOCKS5 ingress - transit - exit, loopback QUIC) with a tap on every frame the transit receives; tunnels: SOCKS5 CONNECT and configured port "
          "forward (32 B..64 KiB, thorough 1 MiB), SOCKS5 UDP ASSOCIATE (32..1400 B), file upload+download (32 B..70 KB), remote shell echo; random payloads; "
-         "plus an ACTIVE transit for UDP (the tap zeroes the key fields of UDP_OPEN / UDP_OPEN_ACK before relaying); "
+         "plus an ACTIVE transit for UDP (the tap zeroes the key fields of UDP_OPEN / UDP_OPEN_ACK before relaying), a destination that hangs up in the middle of "
+         "multi-frame writes (mesh tcpclose), and for every relayed data frame: opens under the tunnel's real key (tcp/fwd) and NOT under the all-zero key; "
+         "handler-level cases on the real exit/forward/udp/shell handlers with a capturing writer (duplicate open, re-open after close, same request id on "
+         "another stream, k-th write fails once then recovers): nothing written contains the payload or fails to authenticate under the tunnel key; "
          "output = echoed, number of tapped frames containing the payload, per direction the plain byte count of the data frames (length - 28) and header "
          "prefix/counter sequence; all ops non-trivial",
     trusted_base=[
